@@ -8,5 +8,5 @@ CONSTANTS
   MaxKeys = 3
 INIT Init
 NEXT Next
-INVARIANT Inv
+INVARIANTS Inv Wire
 CHECK_DEADLOCK FALSE
